@@ -27,6 +27,12 @@ CHECKS = {
  "C16": ("runtime monitoring: node-deletion oracles (dominance and cut vertices by definition) over results of the real algorithms on generated graphs x encodings, every root, all four accessors",
          "Exploration. ~4*10^5 generated graphs per quick run; dominator sets, immediate dominators, strict sets, dominated-by sets and articulation-point sets are compared for equality with definition-level oracles.",
          "Deletion oracles trusted; n<=13.", "DESIGN.md 5/C16"),
+ "C13": ("runtime monitoring: exhaustive-search oracle (all injective maps preserving adjacency, non-adjacency and predicates) compared with the booleans and the full mapping set produced by the real VF2 code on generated near-isomorphic pairs; relabeling-invariance monitor",
+         "Exploration. ~8*10^4 generated pairs per quick run (relabelled copies, one-edge edits, 2-switches, induced subgraphs, tiny patterns), five functions, three predicate regimes; the iterator is consumed through take(|S|+1) so non-termination on a pattern is decided on a logical count.",
+         "Exhaustive search trusted; n0<=6, n1<=7.", "DESIGN.md 5/C13"),
+ "C20": ("runtime monitoring: per-algorithm specification oracles (subset enumeration for maximal cliques and the Steiner optimum, properness/colour-range checker, acyclicity of the remainder, closure-derived reduction/closure, DFS path enumeration, rank-vector invariants and relabeling equivariance) over results of the real code",
+         "Exploration. ~8*10^4 cases x 6 inputs per quick run, every algorithm on its documented domain and on every encoding that satisfies its bounds.",
+         "Oracles trusted; sizes n<=11 (cliques), n<=9 (Steiner optimum), tolerance 1e-9 only for page_rank.", "DESIGN.md 5/C20"),
 }
 REASON_PENDING = "check under construction in this round (runtime monitoring applies; see DESIGN.md section 5)"
 
